@@ -7,6 +7,7 @@
 //! wire crc <shapes.json> <seed> <out.ndjson>     CRC values of encodings (validated by TLC against Crc.tla) and
 //!                                               error patterns into PDU::decode
 use camino::Utf8PathBuf;
+use num_traits::FromPrimitive;
 use cfdp_core::filestore::ChecksumType;
 use cfdp_core::pdu::*;
 use rand::{rngs::StdRng, Rng, SeedableRng};
@@ -36,19 +37,44 @@ fn u(v: &Value, k: &str) -> u64 {
     v[k].as_u64().unwrap()
 }
 
+/// a uniformly drawn valid value of a discrete field (every variant is reached over the shapes x samples)
+fn pick<T>(rng: &mut StdRng, f: impl Fn(u8) -> Option<T>) -> T {
+    loop {
+        if let Some(x) = f(rng.gen::<u8>() & 0x0f) {
+            return x;
+        }
+    }
+}
+fn cond(rng: &mut StdRng, err: bool) -> Condition {
+    loop {
+        let c: Condition = pick(rng, Condition::from_u8);
+        if (c != Condition::NoError) == err {
+            return c;
+        }
+    }
+}
+fn fs_status(rng: &mut StdRng) -> FileStoreStatus {
+    loop {
+        let a: FileStoreAction = pick(rng, FileStoreAction::from_u8);
+        if let Ok(s) = FileStoreStatus::get_status(&a, rng.gen::<u8>() & 0x0f) {
+            return s;
+        }
+    }
+}
+
 fn tlv(kind: &str, sh: &Value, rng: &mut StdRng) -> Option<MetadataTLV> {
     let (l1, l2) = (u(sh, "l1"), u(sh, "l2"));
     Some(match kind {
         "none" => return None,
-        "fsreq" => MetadataTLV::FileStoreRequest(FileStoreRequest { action_code: FileStoreAction::RenameFile, first_filename: name(l1, rng), second_filename: name(l2, rng) }),
+        "fsreq" => MetadataTLV::FileStoreRequest(FileStoreRequest { action_code: pick(rng, FileStoreAction::from_u8), first_filename: name(l1, rng), second_filename: name(l2, rng) }),
         "fsresp" => MetadataTLV::FileStoreResponse(FileStoreResponse {
-            action_and_status: FileStoreStatus::AppendFile(AppendStatus::Filename2DoesNotExist),
+            action_and_status: fs_status(rng),
             first_filename: name(l1, rng),
             second_filename: name(l2, rng),
             filestore_message: vec![],
         }),
         "msg" => MetadataTLV::MessageToUser(MessageToUser { message_text: bytes(l1, rng) }),
-        "fho" => MetadataTLV::FaultHandlerOverride(FaultHandlerOverride { fault_handler_code: HandlerCode::IgnoreError }),
+        "fho" => MetadataTLV::FaultHandlerOverride(FaultHandlerOverride { fault_handler_code: pick(rng, HandlerCode::from_u8) }),
         "flow" => MetadataTLV::FlowLabel(FlowLabel { value: bytes(l1, rng) }),
         _ => MetadataTLV::EntityID(id(u(sh, "idw"), rng)),
     })
@@ -68,18 +94,18 @@ fn build(sh: &Value, rng: &mut StdRng) -> PDU {
             file_data: bytes(u(sh, "datal"), rng),
         })),
         "EOF" => PDUPayload::Directive(Operations::EoF(EndOfFile {
-            condition: if err { Condition::CancelReceived } else { Condition::NoError },
+            condition: cond(rng, err),
             checksum: rng.gen(),
             file_size: off(rng),
             fault_location: if err { Some(id(u(sh, "idw"), rng)) } else { None },
         })),
         "Finished" => PDUPayload::Directive(Operations::Finished(Finished {
-            condition: if err { Condition::FileChecksumFailure } else { Condition::NoError },
+            condition: cond(rng, err),
             delivery_code: if rng.gen() { DeliveryCode::Complete } else { DeliveryCode::Incomplete },
-            file_status: FileStatusCode::Retained,
+            file_status: pick(rng, FileStatusCode::from_u8),
             filestore_response: (0..u(sh, "nresp"))
                 .map(|_| FileStoreResponse {
-                    action_and_status: FileStoreStatus::RenameFile(RenameStatus::NewFilenameAlreadyExists),
+                    action_and_status: fs_status(rng),
                     first_filename: name(u(sh, "l1"), rng),
                     second_filename: name(u(sh, "l2"), rng),
                     filestore_message: vec![],
@@ -87,12 +113,16 @@ fn build(sh: &Value, rng: &mut StdRng) -> PDU {
                 .collect(),
             fault_location: if err { Some(id(u(sh, "idw"), rng)) } else { None },
         })),
-        "ACK" => PDUPayload::Directive(Operations::Ack(PositiveAcknowledgePDU {
-            directive: if rng.gen() { PDUDirective::EoF } else { PDUDirective::Finished },
-            directive_subtype_code: if rng.gen() { ACKSubDirective::Other } else { ACKSubDirective::Finished },
-            condition: Condition::InactivityDetected,
-            transaction_status: TransactionStatus::Terminated,
-        })),
+        "ACK" => {
+            // the two well-formed pairs: ACK of EOF (subtype 0), ACK of Finished (subtype 1)
+            let of_eof: bool = rng.gen();
+            PDUPayload::Directive(Operations::Ack(PositiveAcknowledgePDU {
+                directive: if of_eof { PDUDirective::EoF } else { PDUDirective::Finished },
+                directive_subtype_code: if of_eof { ACKSubDirective::Other } else { ACKSubDirective::Finished },
+                condition: pick(rng, Condition::from_u8),
+                transaction_status: pick(rng, TransactionStatus::from_u8),
+            }))
+        }
         "Metadata" => PDUPayload::Directive(Operations::Metadata(MetadataPDU {
             closure_requested: rng.gen(),
             checksum_type: if rng.gen() { ChecksumType::Modular } else { ChecksumType::Null },
@@ -377,12 +407,109 @@ fn crc(path: &str, seed: u64, out: &str, heavy: bool) {
     println!("{}", json!({"pdus": pdus, "patterns": patterns, "rejected": rejected, "decoded_to_original": same, "crc_records": recs, "violations": viol}));
 }
 
+/// wire uops <templates.json> <seed> <per> [mutate]: the templates of UserOps.tla instantiated with seeded octets.
+/// For every instance w: decode(w) succeeds, encode(decode(w)) = w, encoded_len = |w|, decode(encode(x)) = x
+/// (C05); with `mutate`: truncations are rejected and single-octet mutations never panic (C06).
+fn uops(path: &str, seed: u64, per: usize, mutate: bool) {
+    use cfdp_core::daemon::Report;
+    let v: Value = serde_json::from_str(&std::fs::read_to_string(path).unwrap()).unwrap();
+    let mut rng = StdRng::seed_from_u64(seed);
+    let mut viol: Vec<Value> = vec![];
+    let (mut evals, mut truncs, mut muts) = (0u64, 0u64, 0u64);
+    let mut samples = vec![];
+    let note = |viol: &mut Vec<Value>, prop: &str, what: &str, op: &str, extra: Value| {
+        if viol.iter().filter(|x| x["what"] == what && x["op"] == op).count() < 1 && viol.len() < 40 {
+            viol.push(json!({"property": prop, "what": what, "op": op, "detail": extra}));
+        }
+    };
+    let pstr = |p: Box<dyn std::any::Any + Send>| -> String {
+        p.downcast_ref::<String>().cloned().or_else(|| p.downcast_ref::<&str>().map(|s| s.to_string())).unwrap_or_else(|| "?".into())
+    };
+    for e in v["templates"].as_array().unwrap() {
+        let op = e["op"].as_str().unwrap();
+        for _ in 0..per {
+            let mut w: Vec<u8> = vec![];
+            for f in e["t"].as_array().unwrap() {
+                let n = f[1].as_u64().unwrap();
+                match f[0].as_str().unwrap() {
+                    "lit" => w.push(n as u8),
+                    "asc" => w.extend((0..n).map(|_| b'a' + rng.gen_range(0..26u8))),
+                    _ => w.extend((0..n).map(|_| rng.gen::<u8>())),
+                }
+            }
+            evals += 1;
+            if op == "Report" {
+                match catch_unwind(AssertUnwindSafe(|| Report::decode(&mut &w[..]).map(|r| r.encode()).map_err(|e| e.to_string()))) {
+                    Ok(Ok(back)) if back == w => {}
+                    Ok(Ok(back)) => note(&mut viol, "C05", "encode(decode(w)) differs from w", op, json!({"w": w, "back": back})),
+                    Ok(Err(er)) => note(&mut viol, "C05", "an instance of the layout is rejected", op, json!({"w": w, "err": er})),
+                    Err(p) => note(&mut viol, "C06", "decoder panicked on an instance of the layout", op, json!({"w": w, "panic": pstr(p)})),
+                }
+            } else {
+                let r = catch_unwind(AssertUnwindSafe(|| {
+                    UserOperation::decode(&mut &w[..]).map_err(|e| e.to_string()).map(|x| {
+                        let back = x.clone().encode();
+                        let again = UserOperation::decode(&mut &back[..]).map(|y| y == x).unwrap_or(false);
+                        (format!("{:?}", x), x.encoded_len(), back, again)
+                    })
+                }));
+                match r {
+                    Ok(Ok((dbg, announced, back, again))) => {
+                        if back != w {
+                            note(&mut viol, "C05", "encode(decode(w)) differs from w", op, json!({"w": w, "back": back, "x": dbg}));
+                        } else if announced as usize != w.len() {
+                            note(&mut viol, "C05", "announced length differs from the octets produced", op, json!({"w": w, "encoded_len": announced, "x": dbg}));
+                        } else if !again {
+                            note(&mut viol, "C05", "decode(encode(x)) differs from x", op, json!({"w": w, "x": dbg}));
+                        }
+                    }
+                    Ok(Err(er)) => note(&mut viol, "C05", "an instance of the layout is rejected", op, json!({"w": w, "err": er})),
+                    Err(p) => note(&mut viol, "C06", "decoder panicked on an instance of the layout", op, json!({"w": w, "panic": pstr(p)})),
+                }
+            }
+            if samples.len() < 3 && w.len() > 12 && w.len() < 40 {
+                samples.push(json!({"op": op, "bytes": w}));
+            }
+            if !mutate {
+                continue;
+            }
+            let dec = |d: &[u8]| -> Result<bool, String> {
+                catch_unwind(AssertUnwindSafe(|| if op == "Report" { Report::decode(&mut &d[..]).is_ok() } else { UserOperation::decode(&mut &d[..]).is_ok() })).map_err(pstr)
+            };
+            for n in 0..w.len() {
+                truncs += 1;
+                match dec(&w[..n]) {
+                    Ok(false) => {}
+                    Ok(true) => note(&mut viol, "C06", "a truncated message was accepted", op, json!({"len": n, "w": w})),
+                    Err(p) => note(&mut viol, "C06", "decoder panicked on a truncation", op, json!({"len": n, "w": w, "panic": p})),
+                }
+            }
+            let step = (w.len() / 32).max(1);
+            for pos in (0..w.len()).step_by(step) {
+                for val in [w[pos] ^ 1, w[pos] ^ 0x80, 0u8, 0xFF, w[pos].wrapping_add(1)] {
+                    if val == w[pos] {
+                        continue;
+                    }
+                    muts += 1;
+                    let mut m = w.clone();
+                    m[pos] = val;
+                    if let Err(p) = dec(&m) {
+                        note(&mut viol, "C06", "decoder panicked on a mutated message", op, json!({"pos": pos, "val": val, "bytes": m, "panic": p}));
+                    }
+                }
+            }
+        }
+    }
+    println!("{}", json!({"evaluations": evals, "truncations": truncs, "mutations": muts, "violations": viol, "samples": samples}));
+}
+
 fn main() {
     std::panic::set_hook(Box::new(|_| {}));
     let a: Vec<String> = std::env::args().collect();
     match a[1].as_str() {
         "shapes" => shapes(&a[2], a[3].parse().unwrap(), a[4].parse().unwrap(), a.get(5).map(|x| x == "mutate").unwrap_or(false)),
         "arith" => arith(&a[2]),
+        "uops" => uops(&a[2], a[3].parse().unwrap(), a[4].parse().unwrap(), a.get(5).map(|x| x == "mutate").unwrap_or(false)),
         _ => crc(&a[2], a[3].parse().unwrap(), &a[4], a.get(5).map(|x| x == "heavy").unwrap_or(false)),
     }
 }
